@@ -32,10 +32,10 @@ theorem splitOn_joinFields (fs : List Bytes) (hne : fs ≠ []) (h : ∀ f ∈ fs
   | nil => exact absurd rfl hne
   | cons f r ih =>
     cases r with
-    | nil => simp only [joinFields]; exact splitOn_none 59 f (h f (by simp))
+    | nil => simp only [joinFields]; exact splitOn_not_mem 59 f (h f (by simp))
     | cons g r' =>
       simp only [joinFields, List.append_assoc, List.singleton_append]
-      rw [splitOn_sep 59 f _ (h f (by simp)), ih (by simp) fun x hx => h x (by simp [hx])]
+      rw [splitOn_append_delim 59 f _ (h f (by simp)), ih (by simp) fun x hx => h x (by simp [hx])]
 
 theorem joinFields_valid (fs : List Bytes) (h : ∀ f ∈ fs, validUtf8 f = true) : validUtf8 (joinFields fs) = true := by
   induction fs with
